@@ -986,7 +986,7 @@ func TestVerifC10(t *testing.T) {
 	}
 	vc.Note("message_types", fmt.Sprint(nmsg))
 
-	rounds := vc.N(12, 700) // every target is visited this many times
+	rounds := vc.N(12, 400) // every target is visited this many times
 	nValid, nMut := 4, 40
 	total := rounds * len(tgs)
 	for i := 0; i < total; i++ {
